@@ -6,6 +6,21 @@ PROPS = ['C%02d' % i for i in range(1, 21)]
 BASELINE = "cd /repo && /venv/bin/python -m pytest -ra -q -p no:cacheprovider --timeout=900 --continue-on-collection-errors"
 
 CLAIMED = {
+ 'C14': dict(
+    category='proof',
+    text="Rocq theorems per line type: C14_bool_rt, C14_int_rt and C14_year_rt (through the standard library's decimal strings, all "
+         "integers), C14_enum_rt (any member name that is listed and non-empty, and the empty choice) with the premises checked in the "
+         "kernel for every member of every enumeration of the code base (C14_enum_members_ok, C14_every_member_reads_back), C14_money_rt "
+         "(a value with p decimal places, as a scaled integer, through sign / integer part / p fraction digits - all p, all magnitudes). "
+         "The character-level float formatting and binary64 are not modelled: instead every generated extreme (all places settings, -0.0, "
+         "5e-324, 1e22, ties) and every value of every explored real solution goes through the REAL chain to_string -> ConfigParser.write "
+         "-> file -> read -> PDFFiller._read_form_fields and is compared bit for bit (enumerations by member, text up to surrounding white "
+         "space per line, tax year).",
+    design_ref='DESIGN.md §4 C14',
+    note="Float text round trip is decided by exploration of the real chain, not by theorem (stated). configparser is trusted; one open finding: "
+         "a continuation line starting with '#'/';' is dropped. Print Assumptions: closed under the global context.",
+    technique='Rocq round-trip proofs per type + real writer/reader chain on generated extremes and real solutions',
+ ),
  'C19': dict(
     category='proof',
     text="Rocq theorems: C19_fdf_roundtrip / C19_fdf_entry_roundtrip - for EVERY list of (field name, value) byte strings (any mix of "
